@@ -1276,6 +1276,25 @@ func runC17Seq(t *testing.T, c *Collector) {
 		{"garbage-index-header", func(w *World) { w.FS.WriteFileRaw(idxPath+".info", []byte("{not json")) }, nil, ""},
 		{"garbage-primary-header", func(w *World) { w.FS.WriteFileRaw(dataPath+".info", []byte("\x00\x01")) }, nil, ""},
 		{"unsupported-primary-type", nil, nil, "no-such-primary"},
+		// a legacy single-file index (6-byte header: version, bucket bits)
+		// of a version the upgrade does not know, and one cut off inside its
+		// header
+		{"legacy-index-unknown-version", func(w *World) {
+			for _, n := range w.FS.Names() {
+				if strings.HasPrefix(n, idxPath) {
+					w.FS.RemoveRaw(n)
+				}
+			}
+			w.FS.WriteFileRaw(idxPath, []byte{2, 0, 0, 0, 1, 8, 0, 0, 0, 0})
+		}, nil, ""},
+		{"legacy-index-short-header", func(w *World) {
+			for _, n := range w.FS.Names() {
+				if strings.HasPrefix(n, idxPath) {
+					w.FS.RemoveRaw(n)
+				}
+			}
+			w.FS.WriteFileRaw(idxPath, []byte{2, 0, 0})
+		}, nil, ""},
 	}
 	for _, fc := range cases {
 		fc := fc
